@@ -7,7 +7,7 @@ import z3
 
 from . import sym
 from .core import PathEnd, PyBreak, PyContinue, PyRaise, PyReturn
-from .interp import EmptyLiteral, I, ModAttr, floordiv
+from .interp import EmptyLiteral, I, ModAttr, StarArg, UFunc, floordiv
 from .model import BoundMethod, ClassRef, Closure, Env, FuncRef, ModRef, PyObj, SpecFunc, _mangle
 from .sym import (NONE, TAny, TArr, TBool, TBytes, TDict, TEnum, TFunc, TInt, TList, TNone, TOpt, TRange, TReal,
                   TRef, TSet, TStr, TTuple, Unsupported, V)
@@ -18,7 +18,7 @@ MAX_DEPTH = 12
 def _is_logger(node):
     if isinstance(node, ast.Name) and node.id == "logger":
         return True
-    return isinstance(node, ast.Attribute) and node.attr == "_logger" and isinstance(node.value, ast.Name) and node.value.id == "self"
+    return isinstance(node, ast.Attribute) and node.attr in ("_logger", "__logger") and isinstance(node.value, ast.Name) and node.value.id == "self"
 
 
 class CallMixin:
@@ -76,7 +76,16 @@ class CallMixin:
         args = []
         for a in node.args:
             if isinstance(a, ast.Starred):
-                raise Unsupported("*args")
+                # f(x, *t): a tuple of statically known arity is expanded; an opaque tuple is passed on as ONE
+                # StarArg, accepted only by external stubs (parameter name `star`) and by `*name` parameters
+                sv = self.eval(a.value, env)
+                if isinstance(sv, V) and isinstance(sv.ty, TTuple):
+                    args.extend(sym.tuple_get(sv, i) for i in range(len(sv.ty.items)))
+                elif isinstance(sv, V) and sv.ty == TAny and a is node.args[-1]:
+                    args.append(StarArg(sv))
+                else:
+                    raise Unsupported("*args")
+                continue
             args.append(self.eval(a, env))
         kwargs = {}
         for k in node.keywords:
@@ -86,8 +95,12 @@ class CallMixin:
         return args, kwargs
 
     def call_value(self, callee, args, kwargs, node, env):
+        if any(isinstance(a, StarArg) for a in args) and not isinstance(callee, (FuncRef, BoundMethod, ModAttr)):
+            raise Unsupported("*args")
         if isinstance(callee, SpecFunc):
             return self.expand_spec(callee, args, kwargs, env)
+        if isinstance(callee, UFunc):
+            return self.apply_ufunc(callee.name, args)
         if isinstance(callee, FuncRef):
             return self.call_function(callee.module, callee.node, callee.cls, None, args, kwargs, node)
         if isinstance(callee, ClassRef):
@@ -104,12 +117,48 @@ class CallMixin:
             return self.call_opaque(callee, args, kwargs, node)
         if isinstance(callee, V) and isinstance(callee.ty, TOpt) and callee.ty.inner == TFunc:
             self.fail(z3.Not(sym.opt_is_none(callee)), "TypeError", "calling None", node)
-            return self.call_opaque(sym.opt_val(callee), args, kwargs, node)
+            inner = sym.opt_val(callee)
+            inner.origin = callee.origin
+            return self.call_opaque(inner, args, kwargs, node)
         raise Unsupported("call of %s" % (type(callee).__name__,))
 
     def call_opaque(self, callee, args, kwargs, node):
-        c = self.registry.contracts.get("<callable>")
+        """Call of a callable read from an object field (a callback installed by the embedding code).
+        Semantics: the callee is code OUTSIDE the class under verification; the trusted `callback=True` contract
+        registered under "<DeclaringClass>.<field>" describes it (clause names: self = the object holding the field,
+        a0, a1, ... = positional arguments, keywords by name).  Only the locations in its `modifies` (ghost event
+        logs) are havocked; it may raise what its `raises` declares.  That it does not write the holder's own
+        fields (no re-entry into the object) is an assumption recorded in the evidence.  No contract -> Unsupported."""
+        origin = getattr(callee, "origin", None)
+        if origin is not None and origin[0] == "field":
+            _, ref_t, owner, fname, _ty = origin
+            key = "%s.%s" % (owner, fname)
+            c = self.registry.contracts.get(key)
+            if c is not None and c.callback and c.trusted:
+                if any(isinstance(a, StarArg) for a in args):
+                    raise Unsupported("*args to a callback")
+                self.assumptions_used.add("callbacks stored in fields (%s) are external code that does not re-enter or write the object holding them; they may raise only what their stub declares" % key)
+                loc = {"a%d" % i: a for i, a in enumerate(args)}
+                loc.update(kwargs)
+                loc["self"] = V(TRef(owner), ref_t)
+                env = Env(loc, None)
+                return self.apply_contract(c, env, key, None, node, ret_ty=self.types.parse_str(c.returns) if c.returns else TNone)
         raise Unsupported("call of opaque callable")
+
+    def apply_ufunc(self, name, args):
+        """application of an uninterpreted function declared with R.ufunc (z3 Function; congruence only)"""
+        atys, rty = self.registry.ufuncs[name]
+        tys = [self.types.parse_str(t) for t in atys]
+        rt = self.types.parse_str(rty)
+        if len(args) != len(tys):
+            raise Unsupported("ufunc %s arity" % name)
+        f = z3.Function("uf_" + name, *([sym.sort_of(t) for t in tys] + [sym.sort_of(rt)]))
+        ts = []
+        for a, t in zip(args, tys):
+            if not isinstance(a, V):
+                raise Unsupported("ufunc %s applied to a python object" % name)
+            ts.append(sym.coerce(a, t).t)
+        return V(rt, f(*ts))
 
     def call_closure(self, clo: Closure, args, kwargs):
         n = clo.node
@@ -136,7 +185,12 @@ class CallMixin:
     def apply_stub(self, c, key, args, kwargs, node):
         """Trusted contract of an external function: params are named a0,a1,.. / keywords."""
         self.trusted_used.add(key)
-        loc = {"a%d" % i: a for i, a in enumerate(args)}
+        loc = {}
+        for i, a in enumerate(args):
+            if isinstance(a, StarArg):
+                loc["star"] = a.v  # the unexpanded *tuple
+            else:
+                loc["a%d" % i] = a
         loc.update(kwargs)
         env = Env(loc, None)
         return self.apply_contract(c, env, key, None, node, ret_ty=self.types.parse_str(c.returns) if c.returns else TNone)
@@ -153,6 +207,11 @@ class CallMixin:
             all_pos = a.args[1:]
         else:
             all_pos = a.args
+        if pos and isinstance(pos[-1], StarArg):
+            # f(..., *t) with opaque t: only when t lands exactly on the callee's *varargs parameter
+            if a.vararg is None or len(pos) - 1 != len(params):
+                raise Unsupported("*args")
+            loc[a.vararg.arg] = pos.pop().v
         if len(pos) > len(params):
             raise Unsupported("too many positional arguments")
         for p, v in zip(params, pos):
@@ -181,8 +240,8 @@ class CallMixin:
                 try:
                     loc[p.arg] = self.materialize(v, ty) if isinstance(v, EmptyLiteral) else sym.coerce(v, ty)
                 except Unsupported:
-                    if isinstance(v, V) and ty == TAny:
-                        pass
+                    if isinstance(v, V) and (ty == TAny or "any" in ty.name.replace("Optional", "").lower().split("[")[-1]):
+                        pass  # annotation mentions Any (e.g. Optional[list[Any]]): every value is acceptable, keep it as it is
                     else:
                         raise
         return loc
@@ -262,11 +321,17 @@ class CallMixin:
         return NONE
 
     def construct(self, info, args, kwargs, node):
+        if any(isinstance(a, StarArg) for a in args):
+            raise Unsupported("*args")
         if info.is_enum:
             v = args[0]
             return V(TEnum(info.name), sym.as_int(v))
         if self.index.exc_is_subclass(info.name, "BaseException"):
-            raise Unsupported("exception object as value")
+            # exception object as a value (e.g. passed to a helper that raises it later): a python-level handle that
+            # `raise <name>` re-raises with the class it was built from (same representation as `except ... as e`)
+            from .stmts import ExcValue
+
+            return ExcValue(PyRaise(info.name, list(args), dict(kwargs), site=getattr(node, "lineno", None)))
         obj = self.new_object(info.name)
         _, init = self.index.find_method(info, "__init__")
         if info.dataclass and init is None:
@@ -678,11 +743,25 @@ class CallMixin:
             if isinstance(ty, TRef):
                 info = self.index.cls(ty.cls)
                 return sym.mk_bool(any(c.name in names for c in self.index.mro(info)))
+            if ty == TAny or (isinstance(ty, TOpt) and ty.inner == TAny):
+                # opaque external object: its dynamic class is unknown; isinstance is an uninterpreted predicate of
+                # (object handle, class name) - deterministic, otherwise unconstrained; None is an instance of nothing
+                ids = self.registry.__dict__.setdefault("_isinst_ids", {})
+                f = z3.Function("isinstance_of", z3.IntSort(), z3.IntSort(), z3.BoolSort())
+                h = sym.opt_val(v).t if isinstance(ty, TOpt) else v.t
+                r = z3.Or(*[f(h, z3.IntVal(ids.setdefault(n, len(ids)))) for n in names])
+                if isinstance(ty, TOpt):
+                    r = z3.And(z3.Not(sym.opt_is_none(v)), r)
+                return sym.mk_bool(r)
             prim = {TInt: "int", TBool: "bool", TBytes: "bytes", TStr: "str", TReal: "float"}.get(ty)
             if prim:
                 ok = prim in names or (prim == "bool" and "int" in names) or (prim == "bytes" and "bytearray" in names)
                 return sym.mk_bool(ok)
         raise Unsupported("isinstance")
+
+    def bi_cast(self, node, env):
+        """typing.cast(T, x) is the identity at run time"""
+        return self.eval(node.args[1], env)
 
     def bi_print(self, node, env):
         return NONE
@@ -711,6 +790,8 @@ class CallMixin:
 
     # ------------------------------------------------------------------ methods of built-in values
     def value_method(self, recv: V, name, args, kwargs, node, env):
+        if any(isinstance(a, StarArg) for a in args):
+            raise Unsupported("*args")
         ty = recv.ty
         tgt = node.func.value if isinstance(node, ast.Call) and isinstance(node.func, ast.Attribute) else None
         if isinstance(ty, TList):
